@@ -361,6 +361,81 @@ def run_accept_shard(job: dict[str, Any]) -> dict[str, Any]:
     return chk.to_result()
 
 
+def _wedged_worker_scenario(chk: Check, child: str, seed: int) -> None:
+    """A worker that keeps its listening socket but stopped accepting, its backlog full: the next launch must still
+    return the path of a worker that accepts."""
+    import json
+    import os
+    import shutil
+    import socket
+    import subprocess
+    import sys
+    import tempfile
+    import time
+
+    td = tempfile.mkdtemp(prefix="verif-c33w-")
+    held: list[socket.socket] = []
+    try:
+        spawnlog = os.path.join(td, "spawn.log")
+        env = dict(os.environ)
+        env.update({"VERIF_SPAWNLOG": spawnlog, "VERIF_STUB_LIFE": "9.0", "VERIF_STUB_WEDGE_AFTER": "1.5", "VERIF_STUB_BACKLOG": "2", "PYTHONHASHSEED": "0"})
+        state = os.path.join(td, "state")
+        os.makedirs(state)
+        worker = [sys.executable, child, "stub"]
+
+        def launch_once(k: int) -> dict[str, Any]:
+            argv = [sys.executable, child, "launch", state, str(seed * 100 + k), "0", "0", *worker]
+            p = subprocess.run(argv, env=env, capture_output=True, cwd=td, timeout=60)
+            try:
+                return json.loads(p.stdout.decode(errors="replace").strip().splitlines()[-1])
+            except Exception:  # noqa: BLE001
+                return {"error": f"unparseable output: {p.stdout[-200:]!r} {p.stderr[-300:]!r}"}
+
+        first = launch_once(0)
+        chk.case("launcher|wedged_worker_with_full_backlog")
+        if "error" in first or not first.get("connect_ok"):
+            chk.inconclusive_because(f"wedge scenario: first launch did not give an accepting worker: {first}")
+            return
+        path = first["path"]
+        deadline = time.time() + 8
+        while time.time() < deadline and not any(ln.startswith("wedged ") for ln in (open(spawnlog).read().splitlines() if os.path.exists(spawnlog) else [])):
+            time.sleep(0.1)
+        # fill the accept backlog of the wedged worker
+        full = False
+        for _ in range(64):
+            c = socket.socket(socket.AF_UNIX, socket.SOCK_STREAM)
+            c.setblocking(False)
+            try:
+                c.connect(path)
+                held.append(c)
+            except BlockingIOError:
+                held.append(c)
+                full = True
+                break
+            except OSError:
+                c.close()
+                break
+        if not full:
+            chk.skip("wedge_scenario_backlog_not_filled")
+            return
+        chk.hit("wedged_backlog_filled")
+        second = launch_once(1)
+        log = open(spawnlog).read().splitlines() if os.path.exists(spawnlog) else []
+        wit = {"first": first, "second": second, "spawnlog": log}
+        chk.hit("launch_after_wedge_judged")
+        if "error" in second:
+            chk.violation("launch_failed:wedged_worker", "launch() raised although a fresh worker could have been spawned", wit)
+        elif not second.get("connect_ok"):
+            chk.violation("returned_path_not_accepting:wedged_worker_full_backlog", "launch() returned the path of a worker that was not accepting: a connect right after it returned did not succeed", wit)
+    except subprocess.TimeoutExpired:
+        chk.inconclusive_because("wedge scenario: a launcher process did not finish within 60 s")
+    finally:
+        for c in held:
+            c.close()
+        subprocess.run(["pkill", "-f", f"{td}/state"], check=False)
+        shutil.rmtree(td, ignore_errors=True)
+
+
 def run_launcher_shard(job: dict[str, Any]) -> dict[str, Any]:
     import json
     import os
@@ -373,6 +448,8 @@ def run_launcher_shard(job: dict[str, Any]) -> dict[str, Any]:
     chk = Check(PID, job["tier"], job["seed"])
     root = os.path.dirname(os.path.dirname(os.path.abspath(__file__)))
     child = os.path.join(root, "lib", "child.py")
+    if job.get("wedge"):
+        _wedged_worker_scenario(chk, child, job["seed"])
     for race in job["races"]:
         nprocs, delay_us, with_gc, seed = race["nprocs"], race["delay_us"], race["with_gc"], race["seed"]
         cls = f"launcher|n{nprocs}|d{'0' if delay_us == 0 else ('lo' if delay_us < 3000 else 'hi')}|gc{int(with_gc)}"
@@ -455,7 +532,7 @@ def main(tier: str, seed: int) -> int:
     import concurrent.futures as cf
 
     chk = Check(PID, tier, seed, rule=RULE)
-    chk.require("timer_fired", "stale_timer_fired", "fired_between_accept_and_count", "fired_inside_accept_bookkeeping", "probe_ok_while_connected", "single_spawn", "launch_returned")
+    chk.require("timer_fired", "stale_timer_fired", "fired_between_accept_and_count", "fired_inside_accept_bookkeeping", "probe_ok_while_connected", "single_spawn", "launch_returned", "launch_after_wedge_judged")
     quick = tier == "quick"
     nseeds = 2 if quick else 20
     cases = [(name, seed * 1000 + k) for name in SCENARIOS for k in range(nseeds)]
@@ -466,6 +543,8 @@ def main(tier: str, seed: int) -> int:
     for k in range(8 if quick else 120):
         races.append({"nprocs": rng.choice([2, 3, 4, 4]), "delay_us": rng.choice([0, 500, 2000, 8000]), "with_gc": rng.random() < 0.4, "seed": seed * 1000 + k})
     ljobs = [{"tier": tier, "seed": seed, "races": sh} for sh in shard.split(races, max(2, n // 4))]
+    for k in range(1 if quick else 3):
+        ljobs[k % len(ljobs)] = {**ljobs[k % len(ljobs)], "wedge": True, "seed": seed + k}
     with cf.ThreadPoolExecutor(max_workers=2) as ex:
         f1 = ex.submit(shard.pmap, "checks.c33", "run_accept_shard", ajobs, timeout=600 if quick else 1700)
         f2 = ex.submit(shard.pmap, "checks.c33", "run_launcher_shard", ljobs, timeout=600 if quick else 1700, workers=max(2, n // 4))
